@@ -23,7 +23,6 @@ func (g *Gen) NsNamePool() NsNames {
 	}
 }
 
-
 func (g *Gen) nsC(n NsNames) *Node {
 	return StrN(n.Colls[g.R.Intn(len(n.Colls)-3)]).With(&Tag{Role: NsColl, Slot: "stage"}) // never $cmd / oplog.rs as a stage argument
 }
